@@ -718,4 +718,46 @@ def blanket_into(ctx, args, st):
     m = re.match(r'^<(.+) as Into<(.+)>>::into$', ctx.callee, re.S)
     a, b = m.group(1).strip(), m.group(2).strip()
     if a == b: return ret(st, args[0])
+    from ..exec import type_head
+    v = args[0]
+    if isinstance(v, Adt) and v.ty == type_head(b):
+        return ret(st, v)       # `impl<T> From<T> for T`
     return ctx.ex.call(f'<{b} as From<{a}>>::from', args, st, ctx.depth, caller=ctx.caller)
+
+
+@model(r'^(?:std|core)::(?:rt|panicking)::(?:panic_fmt|panic|panic_display|panic_str|unreachable_display|begin_panic|panic_explicit|panic_nounwind)(?:::<.*>)?$|^std::rt::begin_panic')
+def rt_panic(ctx, args, st):
+    msg = 'panic!'
+    if args:
+        a = args[0]
+        t = st.deref_all(a) if isinstance(a, Ref) else a
+        if isinstance(t, StrV) and t.concrete() is not None: msg = 'panic: ' + t.concrete()
+        elif isinstance(t, Py) and t.kind == 'fmtargs':
+            msg = 'panic: ' + ''.join(p[1] if p[0] == 'lit' and isinstance(p[1], str) else '{}' for p in t.data[0])
+    return panic(st, msg)
+
+
+@model(VEC + r'(reserve|reserve_exact|shrink_to_fit)$|^String::(reserve|shrink_to_fit)$')
+def vec_reserve(ctx, args, st):
+    return ret(st, UNIT)
+
+
+@model(r'^<(?:\[.*\]|Vec<.*>) as Index<(?:std::ops::)?(Range|RangeFrom|RangeTo|RangeFull|RangeInclusive)<?.*>?>>::index$|^core::slice::index::<impl Index<.*> for \[.*\]>::index$')
+def slice_index_range(ctx, args, st):
+    r = vec_ref(st, args[0]); v = st.deref(r)
+    rng = args[1]
+    n = len(v.items)
+    lo = Int(0, 'usize'); hi = Int(n, 'usize')
+    if isinstance(rng, Adt):
+        if rng.ty == 'Range': lo, hi = rng.items[0], rng.items[1]
+        elif rng.ty == 'RangeFrom': lo = rng.items[0]
+        elif rng.ty == 'RangeTo': hi = rng.items[0]
+        elif rng.ty == 'RangeFull': pass
+        else: raise Unsupported(f'slice index by {rng!r}')
+    def g():
+        for s1, a in ctx.ex.concretize(st, lo, 0, n):
+            for s2, b in ctx.ex.concretize(s1, hi, 0, n):
+                if b is None: yield s2, 'panic', 'range end index out of range for slice'; continue
+                if a is None or a > b: yield s2, 'panic', 'slice index starts past its end'; continue
+                yield s2, 'ret', s2.ref(VecV(v.items[a:b], 'slice'))
+    return g()
